@@ -8,6 +8,11 @@
     NormalSent → TunnelSent (same side, same time) → TunnelRecv (other side, ≥ one delay later,
     and exactly one delay later when the bottleneck adds nothing) → NormalRecv (same time);
     none of these steps produces padding;
+  * `C14_only_packets`: composed and unconditional — without machines the returned trace holds
+    only plain packet events (the "nothing else, no padding" half of `C14.holds`);
+  * `C14_identity_partial`: composed — only packets, ordered, exactly the input's number of
+    TunnelSent per side, every TunnelRecv matched one delay after a distinct TunnelSent; the
+    exact send times are what is missing (needs the heap-ordering lemma);
   * `C14_S1_parsed_limit_never_exceeded`: the window-covering lemma — the limit `parse_trace`
     derives (10 × the largest 100 ms count) is never exceeded by the 1 s window fed with the same
     time-ordered times, also when shifted by the delay (all constants come from the translator);
@@ -19,6 +24,9 @@
 -/
 import MbVerif.Proofs.SimNoMachines
 import MbVerif.Proofs.SimWindow
+import MbVerif.Proofs.SimOnlyPackets
+import MbVerif.Proofs.SimMatch
+import MbVerif.Props.C15
 import MbVerif.Spec.C14
 
 namespace Mb.C14
@@ -106,6 +114,54 @@ theorem C14_S1_parsed_limit_never_exceeded (trace : List TraceLine) (delay : Nat
     have hf : Gen.SIM_PARSE_PPS_FACTOR = 10 := by decide
     rw [hf] at this
     omega
+
+/-- **"…and nothing else": only plain packets** (composed, trace level).  For every parsed trace,
+    delay, argument record (any filters, caps, explicit pps or not) and oracle, without machines
+    on either side, every event of the returned trace is a NormalSent, TunnelSent, TunnelRecv or
+    NormalRecv without padding, bypass or replace flag: the `onlyPackets` conjunct of
+    `C14.holds`.  No PaddingSent, no blocking and no timer event can appear. -/
+theorem C14_only_packets {σ : Type} (ρ : Oracle σ) (budget : Nat) (trace : List TraceLine) (delay : Nat) (a : Args) (orc : σ) :
+    onlyPackets (simAdvanced ρ budget [] [] (parseTrace trace delay) a orc).trace = true := by
+  unfold simAdvanced
+  cases hi : initState ρ [] [] (parseTrace trace delay) a orc with
+  | error f => simp [onlyPackets]
+  | ok st =>
+    simp only []
+    have hn := initState_nomach ρ hi
+    have hall := loop_nomach ρ a (loopFuel a budget) st 0 0 hn
+    have hgood := loop_stream_sorted ρ a (loopFuel a budget) st 0 0
+    rw [finish_trace a _ hgood.2]
+    split
+    · simp [onlyPackets]
+    · unfold onlyPackets
+      rw [List.all_eq_true]
+      intro e he
+      simp only [List.mem_map, List.mem_filter] at he
+      obtain ⟨r, ⟨hr, _⟩, hre⟩ := he
+      have := hall r hr
+      rw [hre] at this
+      simpa [pktOK, Bool.and_assoc] using this
+
+/-- **Composed, partial**: without machines, on the returned unfiltered trace of a run that ended
+    because all normal packets were processed, (i) only plain packets occur, (ii) the trace is
+    ordered by time, (iii) each side has exactly as many TunnelSent events as the input trace
+    has lines of its direction, and (iv) every TunnelRecv is matched with a distinct TunnelSent
+    of the other side at least one network delay earlier.  What is still missing for
+    `C14.holds`: that the TunnelSent *times* are exactly the trace's times (the composition of
+    the window-covering lemma `C14_S1_parsed_limit_never_exceeded` with the hop lemmas over the
+    main loop, which needs the heap-ordering lemma: the popped event is a minimum). -/
+theorem C14_identity_partial {σ : Type} (ρ : Oracle σ) (budget : Nat) (trace : List TraceLine) (delay : Nat) (a : Args)
+    (orc : σ) (hd : a.network.delay = delay) (hoc : a.onlyClientEvents = false) (hon : a.onlyNetworkActivity = false)
+    (hstop : (simAdvanced ρ budget [] [] (parseTrace trace delay) a orc).stop = .noNormal) :
+    let tr := (simAdvanced ρ budget [] [] (parseTrace trace delay) a orc).trace
+    onlyPackets tr = true ∧ tr.Pairwise (fun x y => x.time ≤ y.time) ∧
+    (∀ c, C15.normalSentCount tr c = C15.share trace c) ∧ C15.causality delay tr = true := by
+  have hok : ∀ f, (simAdvanced ρ budget [] [] (parseTrace trace delay) a orc).stop ≠ .fault f := by
+    intro f hf; rw [hstop] at hf; cases hf
+  refine ⟨C14_only_packets ρ budget trace delay a orc, C15.C15_trace_sorted ρ budget [] [] _ a orc, ?_,
+    C15.C15_causality_matching ρ budget [] [] trace delay a orc hd hoc hon hok⟩
+  intro c
+  exact (C15.C15_conservation_trace ρ budget [] [] trace delay a orc hoc hon hok c).2 hstop
 
 /-- **S2, second hop** (exact when the bottleneck adds nothing): a normal TunnelSent at the clock
     queues one normal TunnelRecv for the other side exactly one configured delay later. -/
